@@ -196,14 +196,20 @@ def export_matrices(e, N, Mm):
 def queries(t):
     oids, sids = list(t.ids('observation')), list(t.ids())
     q = []
+    def ans(f):
+        # an exception is an answer too (two equal tables must give the same one)
+        try:
+            return f()
+        except Exception as e:
+            return 'raised ' + type(e).__name__
     for ax, ids in (('observation', oids), ('sample', sids)):
         for i in ids:
-            md = t.metadata(i, ax)
-            q.append((ax, str(i), tuple(float(x) for x in t.data(i, ax)), t.index(i, ax),
-                      None if md is None else O.freeze(dict(md))))
+            md = ans(lambda: t.metadata(i, ax))
+            q.append((ax, str(i), ans(lambda: tuple(float(x) for x in t.data(i, ax))), ans(lambda: t.index(i, ax)),
+                      md if md is None or isinstance(md, str) else O.freeze(dict(md))))
     for o in oids:
         for s in sids:
-            q.append((str(o), str(s), float(t.get_value_by_ids(o, s))))
+            q.append((str(o), str(s), ans(lambda: float(t.get_value_by_ids(o, s)))))
     return q
 
 
@@ -370,6 +376,23 @@ def check(case, acc, tmp):
                 acc.count('clause:export-values')
         if ref is None:
             ref = (rn, e, q)
+            # somebody writes a table with a formatter of their own for the category 'k' in between: the exports
+            # that follow are plain ones again
+            try:
+                import h5py
+
+                def shout(grp, header, md, compression):
+                    grp.create_dataset('metadata/%s' % header, shape=(len(md),), dtype=h5py.special_dtype(vlen=str),
+                                       data=[('!' + str(m.get(header))).encode('utf8') for m in md],
+                                       compression=compression)
+                if omd is not None:
+                    fh0 = h5py.File('c16-fs-%d.h5' % os.getpid(), 'w', driver='core', backing_store=False)
+                    try:
+                        route('dense', D, oids, sids, omd, smd, ttype).to_hdf5(fh0, 'verif', format_fs={'k': shout})
+                    finally:
+                        fh0.close()
+            except Exception:
+                pass
             continue
         for kind in ('tsv', 'json', 'hdf5'):
             if e[kind] != ref[1][kind]:
@@ -413,7 +436,8 @@ PRESERVING = [('sort_inv', 'sample'), ('sort_inv', 'observation'), ('filter_all_
               ('subsample_full',), ('TT',), ('copy',), ('rename_identity', 'sample'),
               ('rename_identity', 'observation'), ('nnz',), ('col',), ('row',), ('iter_s',), ('iter_o',),
               ('pairwise',), ('eq',), ('desc',), ('sum',), ('reduce',), ('tsv',), ('tsv_md',), ('hdf5',),
-              ('dataframe',), ('minmax',), ('interleaved',)]
+              ('dataframe',), ('minmax',), ('interleaved',), ('rename_refused', 'sample'),
+              ('rename_refused', 'observation')]
 READS = ('nnz', 'col', 'row', 'iter_s', 'iter_o', 'pairwise', 'eq', 'desc', 'sum', 'reduce', 'tsv', 'tsv_md',
          'hdf5', 'dataframe', 'minmax', 'interleaved')
 
@@ -483,6 +507,16 @@ def b_apply(op, t, m, strict=True):
         r = t.transpose().transpose()
         r.type = ty
         return OPS.Res(r, m, False)
+    if n == 'rename_refused':
+        # an in-place renaming that sends two ids to one name is refused: the table is as it was, lookups included
+        ids = [str(i) for i in t.ids(op[1])]
+        if len(ids) < 2:
+            raise OPS.Refuse()
+        try:
+            t.update_ids({ids[0]: 'dup', ids[1]: 'dup'}, axis=op[1], strict=False, inplace=True)
+        except Exception:
+            pass
+        return OPS.Res(t, m, True)
     if n == 'copy':
         return OPS.Res(t.copy(), m, False)
     if n == 'rename_identity':
@@ -618,10 +652,15 @@ def b_pairs(chunk, acc):
 # ----------------------------------------------------------------------------- part C
 def c_on_state(t, m, report):
     """a copy equals its original; equality is reflexive – in every state any history reaches"""
-    c = t.copy()
-    v = [(t == c), (c == t), (t == t)]
-    n = [(t != c), (c != t)]
-    d = t.descriptive_equality(c)
+    try:
+        c = t.copy()
+        v = [(t == c), (c == t), (t == t)]
+        n = [(t != c), (c != t)]
+        d = t.descriptive_equality(c)
+    except Exception as e:
+        report('copy-or-comparison-raised:' + type(e).__name__, 'copy() / == / descriptive_equality raised %s: %s'
+               % (type(e).__name__, e))
+        return
     if not all(bool(x) for x in v) or any(bool(x) for x in n) or d != 'Tables appear equal':
         report('copy-not-equal-to-original', 't==copy: %r, copy==t: %r, t==t: %r, !=: %r; descriptive_equality: %s'
                % (v[0], v[1], v[2], n, d))
